@@ -95,6 +95,11 @@ THEOREMS = [
 ]
 
 
+# ROUND 6: the callee guard is a theorem (lib/props/procinv_util.py)
+import procinv_util as _pv
+THEOREMS = THEOREMS + [t for t in _pv.COMMON_THEOREMS if t not in THEOREMS] + ['Marwood.Proofs.C04.tail_loop_sp_closed', 'Marwood.Proofs.C04.step_preserves_closed']
+META["note"] = META["note"] + _pv.NOTE + ' C04: tail_loop_sp_closed (T04.5 on the real machine: GoodI, WF-stack and PInv of the FIRST state of the loop, SizeBounded), step_preserves_closed (one real instruction preserves GoodI, PInv and WFS; no CalleeOk hypothesis).'
+
 def nontrivial(req, impl):
     if req.startswith("step"):
         return "tcallAcc" in req or "varArg" in req or "code=openter" in req
